@@ -72,6 +72,16 @@ def make_cases(tier, seed, n_random=None):
     for i, (nm, n, e) in enumerate(graphs):
         for k, sr in enumerate(srs):
             cases.append(dict(kind="one", name=nm, n=n, edges=e, sr=sr, names=names[(i + k) % len(names)], perms=3, pseed=i))
+    # a non-commutative closed semiring (words of length <= LANG_K): corpus, all digraphs on <= 2 nodes, samples on 3..4 nodes
+    for nm, n, e in graphs[:len(dom_wfsa.graph_corpus())]:
+        if n <= 5:
+            cases.append(dict(kind="noncomm", name=nm, n=n, edges=e))
+    for n in (1, 2):
+        for mask in range(1 << (n * n)):
+            cases.append(dict(kind="noncomm", name=f"nc_all{n}_{mask}", n=n, edges=dom_wfsa.graph_from_mask(n, mask)))
+    for i in range(40 if quick else 600):
+        n = rng.choice([3, 3, 4])
+        cases.append(dict(kind="noncomm", name=f"nc_rand{seed}_{i}", n=n, edges=dom_wfsa.random_graph(rng, n)))
     return cases
 
 
@@ -230,6 +240,8 @@ def check_graph(out, case, name, n, edges, sr, namer, perms, SR):
 def check_case(case):
     SR = dom_wfsa.semirings()
     out = dict(n=0, keys=[], violations=[])
+    if case["kind"] == "noncomm":
+        return check_noncomm(case)
     if case["kind"] == "exh":
         n = case["n"]
         names = list(NAMERS)
@@ -258,7 +270,9 @@ def bounded(run):
              f"root orders each); right-hand sides: every basis vector, a generic dense and a generic sparse vector; weights added "
              f"with `G[i,j] += w` (no cancelling update - precondition from the call sites); Q = exact user semiring, comparison "
              f"exact; other semirings tolerance 1e-7; PYTHONHASHSEED in the listed set (root order of `blocks` = set iteration "
-             f"order).  NOT covered: Expectation/Entropy semirings, graphs whose path sums diverge.  non-trivial = graph with at "
+             f"order).  Additionally a NON-COMMUTATIVE closed user semiring (finite languages of words of length <= 4 under union and truncated "
+             f"concatenation): corpus, all digraphs on <= 2 nodes and seeded samples on 3..4 nodes - both closures and both solvers against "
+             f"breadth-first path-word enumeration.  NOT covered: Expectation/Entropy semirings, graphs whose path sums diverge.  non-trivial = graph with at "
              f"least one edge; distinct = (graph, semiring, naming); signature = (function, failure kind, semiring)")
     seeds = (0, 1) if tier == "quick" else (0, 1, 2, 3)
     run.extra["hash_seeds"] = list(seeds)
@@ -279,3 +293,140 @@ def run(run, only=None):
 
 def replay(doc):
     return common.generic_replay(doc, check_case)
+
+
+# ---------------------------------------------------------------- non-commutative closed semiring (added after seeded change C15-2)
+LANG_K = 4        # languages of words of length <= LANG_K: union / truncated concatenation / star; closed, idempotent, NOT commutative
+OB_NC = "C15/linear.WeightedGraph.closure/non-commutative-semiring"
+
+
+def _letter(w):
+    return "abcdefghijklmnopqrstuvw"[Fraction(w).denominator % 23]
+
+
+def _lang_mul(a, b):
+    return frozenset(x + y for x in a for y in b if len(x) + len(y) <= LANG_K)
+
+
+def _lang_star(a):
+    cur = frozenset([""])
+    while True:
+        nxt = cur | _lang_mul(cur, a)
+        if nxt == cur:
+            return cur
+        cur = nxt
+
+
+def lang_semiring():
+    """A user semiring as a library user would write it (property quantifier: 'closed semirings')."""
+    from genlm.grammar.semiring import Semiring
+
+    class Lang(Semiring):
+        def __add__(self, other):
+            return Lang(self.score | other.score)
+
+        def __mul__(self, other):
+            return Lang(_lang_mul(self.score, other.score))
+
+        def star(self):
+            return Lang(_lang_star(self.score))
+
+        def metric(self, other):
+            return 0 if self.score == other.score else 1
+
+        def __hash__(self):
+            return hash(self.score)
+
+    Lang.zero = Lang(frozenset())
+    Lang.one = Lang(frozenset([""]))
+    return Lang
+
+
+def check_noncomm(case):
+    """closure_reference / closure_scc_based / solve_left / solve_right over the language semiring against path enumeration:
+    K[i,j] = set of label words (length <= LANG_K) of all paths i -> j; x = b A* resp. A* b."""
+    from genlm.grammar.linear import WeightedGraph
+    out = dict(n=0, keys=[], violations=[])
+    n, edges = case["n"], case["edges"]
+    nodes = list(range(n))
+    lab = {}
+    for i, j, w in edges:
+        lab.setdefault((i, j), set()).add(_letter(w))
+    # spec: words of all paths, by breadth-first extension (independent of any elimination order)
+    K = {(i, j): set() for i in nodes for j in nodes}
+    frontier = {(i, i, "") for i in nodes}
+    for i in nodes:
+        K[i, i].add("")
+    while frontier:
+        nxt = set()
+        for (i, j, wd) in frontier:
+            for (a, b), letters in lab.items():
+                if a == j:
+                    for c in letters:
+                        if len(wd) < LANG_K and (wd + c) not in K[i, b]:
+                            K[i, b].add(wd + c)
+                            nxt.add((i, b, wd + c))
+        frontier = nxt
+    Lang = lang_semiring()
+    desc = dict(graph=f"n={n} edges={[(i, j, sorted(l)) for (i, j), l in lab.items()]}", semiring=f"Lang<={LANG_K} (non-commutative)", instance=case["name"])
+
+    def viol(what, func, got, exp):
+        out["violations"].append(dict(obligation=OB_NC, what=what, signature=sig(func, dom_wfsa.kind(what), "Lang"),
+                                      replay=dict(desc, function=func, observed=repr(got)[:300], expected=repr(exp)[:300], case=common.enc(case))))
+
+    def build():
+        G = WeightedGraph(Lang)
+        for (i, j), letters in lab.items():
+            G[i, j] += Lang(frozenset(letters))
+        G.N |= set(nodes)
+        return G
+
+    st, G = gcall(CALL_TIMEOUT, build)
+    if st != "ok":
+        viol(fail_kind(st, G), "construct", G, "a graph")
+        return out
+    for func in ("closure_reference", "closure_scc_based"):
+        st, C = gcall(CALL_TIMEOUT, getattr(G, func))
+        out["n"] += 1
+        if st != "ok":
+            viol(fail_kind(st, C), func, C, "closure")
+            continue
+        for i in nodes:
+            for j in nodes:
+                got = C[i, j] if (i, j) in C else Lang.zero
+                got = set(got.score) if hasattr(got, "score") else set()
+                if got != K[i, j]:
+                    viol("wrong-value", func, sorted(got), sorted(K[i, j]))
+                    break
+            else:
+                continue
+            break
+    # solvers with a generic right-hand side: b[i] = {"z"} at one node
+    for src in nodes[:2]:
+        b = Lang.chart()
+        b[src] = Lang(frozenset(["z"]))
+        st, sol = gcall(CALL_TIMEOUT, G.solve_left, b)
+        out["n"] += 1
+        if st != "ok":
+            viol(fail_kind(st, sol), "solve_left", sol, "solution")
+        else:
+            for j in nodes:
+                want = {("z" + wd) for wd in K[src, j] if len(wd) + 1 <= LANG_K}
+                got = set(sol[j].score) if j in sol else set()
+                if got != want:
+                    viol("wrong-value", "solve_left", sorted(got), sorted(want))
+                    break
+        st, sol = gcall(CALL_TIMEOUT, G.solve_right, b)
+        out["n"] += 1
+        if st != "ok":
+            viol(fail_kind(st, sol), "solve_right", sol, "solution")
+        else:
+            for i in nodes:
+                want = {(wd + "z") for wd in K[i, src] if len(wd) + 1 <= LANG_K}
+                got = set(sol[i].score) if i in sol else set()
+                if got != want:
+                    viol("wrong-value", "solve_right", sorted(got), sorted(want))
+                    break
+    if lab:
+        out["keys"].append(sig("noncomm", case["name"]))
+    return out
